@@ -31,6 +31,13 @@ theorem interact_logs_both (esc : Option Nat) (fin fout : List Nat → List Nat)
     Ia.copy_out_spec esc fin fout evs { s with shown := s.shown ++ s.pending, pending := [], mode := .raw }
   exact ⟨⟨used, h1, h3, h2⟩, h6 t h⟩
 
+/-- in unicode mode what interact() logs on the read side is decoded by the spawn's own persistent decoder: over any history of
+    expect()-side reads, sends and interact() copies `logfile_read` holds the decoding of the child's whole byte stream -/
+theorem interact_read_log_is_decoded_stream (dec : IncDecoder σd Nat) (enc : IncEncoder σe) (cfg : Cfg) (ops : List Op2) :
+    readText (run2 dec enc cfg (Sess.init dec enc) ops).logRead = (dec.feed dec.init (childBytes ops)).2 := by
+  have := (Sess.logRead_decodes_whole_stream dec enc cfg ops (Sess.init dec enc)).1
+  simpa [Sess.init, readText, writesOf] using this
+
 /-! non-vacuity -/
 def idEnc : IncEncoder Unit := ⟨(), fun s a => (s, a), by intros; rfl, by intros; rfl⟩
 
